@@ -19,9 +19,19 @@ respath = os.path.join(root, "RESULTS.json")
 results = json.load(open(respath)) if os.path.exists(respath) else {}
 def run(cmd, **kw): return subprocess.run(cmd, capture_output=True, text=True, **kw)
 bad = 0
+AUTO = "--auto" in args
+ANCHORS = {}
+if AUTO:
+    # --auto: only the checks whose property is anchored in a file the patch touches (plus C03: anything may crash)
+    for line in open("/verif/properties.jsonl"):
+        p = json.loads(line); ANCHORS[p["id"]] = set(p["anchors"]["files"])
+all_checks = checks
 for name in names:
     tmp = tempfile.mkdtemp(prefix="vfbenign-"); tree = os.path.join(tmp, "repo")
     out = results.setdefault(name, {})
+    if AUTO:
+        touched = {l.split(" b/", 1)[1].strip() for l in open(os.path.join(root, name, "patch.diff")) if l.startswith("diff --git")}
+        checks = [c for c in all_checks if ANCHORS.get(c, set()) & touched or c == "C03"]
     try:
         run(["git", "-C", "/repo", "worktree", "add", "-q", "--detach", tree, "HEAD"])
         ap = run(["git", "-C", tree, "apply", os.path.join(root, name, "patch.diff")])
